@@ -82,11 +82,16 @@ def run_on_seed(seed, props, repo):
             try:
                 rep = mod.run(db, "quick")
                 bad = [i for i in rep.instances if not i["ok"]]
-                res[prop] = (1 if bad else 0, bad)
+                if not bad and rep.broken:
+                    res[prop] = (2, [{"rule": "floor", "key": rep.broken[0], "loc": "", "detail": "cannot decide"}])
+                else:
+                    res[prop] = (1 if bad else 0, bad)
             except facts.MissingAnchor as e:
                 res[prop] = (2, [{"rule": "anchor", "key": str(e), "loc": "", "detail": "missing anchor"}])
             except common.Broken as e:
                 res[prop] = (2, [{"rule": "floor", "key": str(e), "loc": "", "detail": "cannot decide"}])
+            except Exception as e:
+                res[prop] = (2, [{"rule": "internal", "key": repr(e)[:200], "loc": "", "detail": "cannot decide"}])
         return res
     finally:
         shutil.rmtree(base, ignore_errors=True)
